@@ -101,6 +101,26 @@ def m_trie_common(I, fr, callee, m, args):
         return usize(len(idx))
     if op == 'is_empty':
         return TRUE if not idx else FALSE
+    # a radix trie iterates in key order (a key before the keys it is a prefix of): sort the entries, forking on the comparisons
+    ents = I.load_ref(ref).entries
+    kbs = {i: key_bytes(I, ents[i][0]) for i in idx}
+
+    def lex_lt(a, b):
+        alts = []
+        eq_prefix = []
+        for x, y in zip(a, b):
+            alts.append(z3.And(eq_prefix + [z3.ULT(x.z(), y.z())]))
+            eq_prefix = eq_prefix + [x.z() == y.z()]
+        if len(a) < len(b):
+            alts.append(z3.And(eq_prefix + [z3.BoolVal(True)]))
+        return z3.Or(alts + [z3.BoolVal(False)])
+    order = []
+    for i in idx:
+        pos = len(order)
+        while pos > 0 and I.ctx.branch(lex_lt(kbs[i], kbs[order[pos - 1]])):
+            pos -= 1
+        order.insert(pos, i)
+    idx = order
     if op == 'iter':
         return IterV('list', items=tuple(Agg('tuple', (Ref(ref.cell, ref.path + (('entk', i),)),
                                                          Ref(ref.cell, ref.path + (('ent', i),)))) for i in idx), i=0)
